@@ -34,7 +34,7 @@ func withAnchors(c *Ctx, f func(a *serverAnchors)) {
 
 func init() {
 	register("C01",
-		"Decides, on every control-flow path, the mechanism that makes one-fetch-per-unknown-key possible: the lookup's transition relation over four abstract entry states (only the unknown state becomes fetching, exactly the requests that find it fetching are registered as waiters and get the registered channel, a hit returns the stored response), the locked wrapper (lookup under the write lock; a woken waiter re-evaluates under the lock; nothing but that wrapper calls the lookup step), get-or-create of the entry in one shard critical section, the shard function (stateless: no shared hasher), the cache middleware forwarding only non-hit states exactly once, a persisted record being loaded inside the locked lookup only (never applied over a state another request has already advanced), a reload keeping every surviving cache's entries (an in-flight fetch stays the key's only fetch), a fetcher whose downstream call succeeded publishing the response as cacheable unless no lifetime or no response was recorded, and the stored expiry being the clock plus a positive lifetime (an entry stored already expired makes every waiter the next fetcher). Nothing reachable from the request-path middleware calls a purge function, so a request on one key cannot drop another key's entry while its fetch is in flight. The schedule quantifier itself (that the Go runtime, given these shapes, yields one fetch on every interleaving) is not decided.",
+		"Decides, on every control-flow path, the mechanism that makes one-fetch-per-unknown-key possible: the lookup's transition relation over four abstract entry states (only the unknown state becomes fetching, exactly the requests that find it fetching are registered as waiters and get the registered channel, a hit returns the stored response), the locked wrapper (lookup under the write lock; a woken waiter re-evaluates under the lock; nothing but that wrapper calls the lookup step), get-or-create of the entry in one shard critical section, the shard function (stateless: no shared hasher), the cache middleware forwarding only non-hit states exactly once, a persisted record being loaded inside the locked lookup only (never applied over a state another request has already advanced), a reload keeping every surviving cache's entries (an in-flight fetch stays the key's only fetch), a fetcher whose downstream call succeeded publishing the response as cacheable unless no lifetime or no response was recorded, and the stored expiry being the clock plus a positive lifetime (an entry stored already expired makes every waiter the next fetcher). Nothing reachable from the request-path middleware calls a purge function, so a request on one key cannot drop another key's entry while its fetch is in flight. A fetcher whose upstream answer has a positive lifetime always has that lifetime recorded (no further test of the proxy's own decides cacheability). The schedule quantifier itself (that the Go runtime, given these shapes, yields one fetch on every interleaving) is not decided.",
 		nil, func(c *Ctx) {
 			withAnchors(c, func(a *serverAnchors) {
 				ruleShardStateless(c)
@@ -44,7 +44,7 @@ func init() {
 				ruleKeepCache(c)
 				ruleLockedWrapper(c, a.cacheA)
 				ruleCacheMiddleware(c, a, set("hit-does-not-forward", "hit-serves-stored", "forward-once", "entry-of-request-key", "completion-only-by-fetcher", "cacheable-is-stored"))
-				ruleProxyMiddleware(c, a, set("forward-once", "location-edits-order"))
+				ruleProxyMiddleware(c, a, set("forward-once", "location-edits-order", "lifetime-recorded"))
 				ruleCompletionPaths(c, a.cacheA, set("expiry-value", "ttl-positive", "no-wrap"))
 				ruleGetOrCreate(c)
 				ruleShardFunction(c)
@@ -85,7 +85,7 @@ func init() {
 				ruleProxyHandlerDirect(c)
 				ruleLocationEdits(c)
 				ruleCacheMiddleware(c, a, set("pass-methods", "forward-once", "label", "hit-does-not-forward", "store-gate", "completion-only-by-fetcher"))
-				ruleProxyMiddleware(c, a, set("forward-once", "lifetime-plumbing", "upstream-error-propagates"))
+				ruleProxyMiddleware(c, a, set("forward-once", "lifetime-plumbing", "lifetime-recorded", "upstream-error-propagates"))
 			})
 		})
 	register("C04",
@@ -98,7 +98,7 @@ func init() {
 				ruleLockedWrapper(c, a.cacheA)
 				ruleStoreLoadAtomic(c, a.cacheA)
 				ruleCacheMiddleware(c, a, set("hit-age", "hit-serves-stored", "store-gate"))
-				ruleProxyMiddleware(c, a, set("lifetime-plumbing", "location-edits-order"))
+				ruleProxyMiddleware(c, a, set("lifetime-plumbing", "lifetime-recorded", "location-edits-order"))
 				ruleMaxAge(c, a, set("cache-control-all-lines", "lifetime-source", "smaxage-preferred", "age-subtracted"))
 				ruleAge(c, a.cacheA)
 				ruleResponder(c, a)
@@ -106,7 +106,7 @@ func init() {
 			})
 		})
 	register("C07",
-		"Decides, for all configured periods: a lookup in hit-for-pass state is never queued and never served a response; the marker always gets a period >= 1 (the default when the configured one is <= 0) added to the clock; it lapses through the same expiry test as hits, and that test keeps the entry through its expiry second (expired iff expiredAt < now), so the period is not cut short; the configured period is converted per cache (no value carried over from the previous cache's conversion), is what the fetcher passes and is kept in seconds (never a time.Duration squeezed into the int); the record is saved only after the entry's final state is set, and always when a store is configured (a marker without a response included), with a store lifetime that is never known to be <= 0; non-fetcher requests never complete (extend) the entry; hit-for-pass requests are forwarded once and reach the upstream with their headers untouched; no lock of the server is held across the upstream call; the upstream transport puts no cap on connections per host or streams per connection (forwarded requests do not queue behind one another inside net/http). Every entry is built with a lock allocated for it and no entry is ever copied as a value, so requests on one key queue only behind that key. Timed histories are not decided.",
+		"Decides, for all configured periods: a lookup in hit-for-pass state is never queued and never served a response; the marker always gets a period >= 1 (the default when the configured one is <= 0) added to the clock; it lapses through the same expiry test as hits, and that test keeps the entry through its expiry second (expired iff expiredAt < now), so the period is not cut short; the configured period is converted per cache (no value carried over from the previous cache's conversion), is what the fetcher passes and is kept in seconds (never a time.Duration squeezed into the int); the record is saved only after the entry's final state is set, and always when a store is configured (a marker without a response included), with a store lifetime that is never known to be <= 0; non-fetcher requests never complete (extend) the entry; hit-for-pass requests are forwarded once and reach the upstream with their headers untouched; no lock of the server is held across the upstream call; the upstream transport puts no cap on connections per host or streams per connection (forwarded requests do not queue behind one another inside net/http). Every entry is built with a lock allocated for it and no entry is ever copied as a value, so requests on one key queue only behind that key. Outside the purge nothing deletes a persisted record (no eviction hook takes the marker's stored copy with it). Timed histories are not decided.",
 		nil, func(c *Ctx) {
 			withAnchors(c, func(a *serverAnchors) {
 				ruleLookup(c, a.cacheA, set("state-determined", "registration", "hit-data", "expiry-applied", "expiry-exact", "invariant-expiry", "returned-status"))
@@ -117,16 +117,17 @@ func init() {
 				ruleNoWaitUnderLock(c)
 				ruleLookupNilChecked(c)
 				ruleCacheMiddleware(c, a, set("ticket-discharge", "hit-for-pass-period", "completion-only-by-fetcher", "forward-once"))
-				ruleProxyMiddleware(c, a, set("withheld-on-fetch", "lifetime-plumbing"))
+				ruleProxyMiddleware(c, a, set("withheld-on-fetch", "lifetime-plumbing", "lifetime-recorded"))
 				ruleTransportUnbounded(c)
 				ruleLockedWrapper(c, a.cacheA)
 				ruleStoreLoadAtomic(c, a.cacheA)
 				ruleConverters(c)
 				ruleEntryOwnLock(c)
+				ruleRecordDeletedOnlyByPurge(c)
 			})
 		})
 	register("C08",
-		"Decides the safety clauses: a record is read from the store only on the first lookup of an unknown entry; it is adopted all-or-nothing, only as hit/hit-for-pass with a non-zero expiry (hit with a response); pike's own expiry test is applied to the adopted expiry before the state is served; absolute createdAt/expiredAt are what is written and restored, each number written as the field stands and stored as read; nothing changes the entry's state after the call that saves it; the status numbers keep the meaning records already on disk give them; no function outside the verified ones (an eviction hook, say) writes a live entry or a published response; the body of a restored entry is recovered from a stored variant whenever its raw body is empty (a restored record carries an empty, non-nil raw body); each back end's Get, Set and Delete address one and the same record for a key; adoption does not depend on the decoded response's content (empty bodies are valid). Badger is opened with its directory lock, on disk and writable; NewStore looks up, opens and registers a store in one critical section of its package lock and gives the lock back on every return. The crash-point quantifier (what the store's files contain after a kill) is not applicable to static analysis.",
+		"Decides the safety clauses: a record is read from the store only on the first lookup of an unknown entry; it is adopted all-or-nothing, only as hit/hit-for-pass with a non-zero expiry (hit with a response); pike's own expiry test is applied to the adopted expiry before the state is served; absolute createdAt/expiredAt are what is written and restored, each number written as the field stands and stored as read; nothing changes the entry's state after the call that saves it; the status numbers keep the meaning records already on disk give them; no function outside the verified ones (an eviction hook, say) writes a live entry or a published response; the body of a restored entry is recovered from a stored variant whenever its raw body is empty (a restored record carries an empty, non-nil raw body); each back end's Get, Set and Delete address one and the same record for a key; adoption does not depend on the decoded response's content (empty bodies are valid). Badger is opened with its directory lock, on disk and writable; NewStore looks up, opens and registers a store in one critical section of its package lock and gives the lock back on every return. Outside the purge nothing deletes a persisted record; every successful path of the record writer emits the same sequence of elements and every successful path of the reader consumes the same sequence; the store registry is looked up by the URL, never searched. The crash-point quantifier (what the store's files contain after a kill) is not applicable to static analysis.",
 		nil, func(c *Ctx) {
 			withAnchors(c, func(a *serverAnchors) {
 				ruleLookup(c, a.cacheA, set("state-determined", "load-on-first-lookup", "load-only-when-unknown", "expiry-applied", "invariant-expiry", "hit-data"))
@@ -154,10 +155,11 @@ func init() {
 				ruleRawProvenance(c)
 				ruleBadgerOpenOptions(c)
 				ruleNewStoreLock(c)
+				ruleRecordDeletedOnlyByPurge(c)
 			})
 		})
 	register("C10",
-		"Decides that store failures cannot reach clients or strand waiters: a failed, truncated or impossible record leaves the live entry untouched (all-or-nothing adoption) and the lookup continues as a miss; every completion path drains the waiters and sets the state whatever the store write returns; the fetcher's ticket is always discharged; whatever expiry a restored record carries goes through the same expiry test as any entry (no sign or value of it is exempt); the record decoders contain no panicking-by-contract call, explicit panic or unchecked data-sized allocation and every index / fixed-width read is provably inside the data (a panic under the entry lock would wedge the key); a purge deletes the persisted record while still holding the shard lock and never takes the entry lock; the lookup never writes to the store (memory hits do not wait for it); a store constructor hands out a store only with a nil error; the loader calls nothing that takes an entry lock. NewStore returns its lock on every path (an open that fails does not wedge the next one), and the error of opening a store reaches no result, branch or panic of package main: the rest of an update is applied whatever the store does. Slow calls and flipped body bits are not decided.",
+		"Decides that store failures cannot reach clients or strand waiters: a failed, truncated or impossible record leaves the live entry untouched (all-or-nothing adoption) and the lookup continues as a miss; every completion path drains the waiters and sets the state whatever the store write returns; the fetcher's ticket is always discharged; whatever expiry a restored record carries goes through the same expiry test as any entry (no sign or value of it is exempt); the record decoders contain no panicking-by-contract call, explicit panic or unchecked data-sized allocation and every index / fixed-width read is provably inside the data (a panic under the entry lock would wedge the key); a purge deletes the persisted record while still holding the shard lock and never takes the entry lock; the lookup never writes to the store (memory hits do not wait for it); a store constructor hands out a store only with a nil error; the loader calls nothing that takes an entry lock. NewStore returns its lock on every path (an open that fails does not wedge the next one), and the error of opening a store reaches no result, branch or panic of package main: the rest of an update is applied whatever the store does. The record reader consumes the same sequence of elements on every successful path, so a block that is not decoded is still skipped and a good record cannot be misread into an immortal expiry. Slow calls and flipped body bits are not decided.",
 		nil, func(c *Ctx) {
 			withAnchors(c, func(a *serverAnchors) {
 				ruleStoreLoadAtomic(c, a.cacheA)
@@ -181,6 +183,7 @@ func init() {
 				ruleGetOrCreate(c)
 				ruleNewStoreLock(c)
 				ruleStoreOpenErrorLocal(c)
+				ruleLayout(c)
 			})
 		})
 	register("C06",
@@ -224,7 +227,7 @@ func init() {
 			})
 		})
 	register("C18",
-		"Decides that a purge removes the key from the shard the lookup consults (same shard function, whole key) on every path and deletes the persisted record whenever a store is configured; the unnamed form visits every cache and never stops early, the named form touches one; the admin handler purges on every request that carries a key; the package-level purge hands (cache name, key) unchanged to the one default registry; each back end deletes the record its Get and Set address; a purge writes no entry state and takes no entry lock, so it can neither block on nor strand an in-flight fetch; an entry enters a shard's LRU only from the function that has just constructed it, so a purged entry is never put back by its fetcher; the badger back end's writes and deletes are committed before success is reported. The history clause about a purge racing a fetch that later re-persists is not decided.",
+		"Decides that a purge removes the key from the shard the lookup consults (same shard function, whole key) on every path and deletes the persisted record whenever a store is configured; the unnamed form visits every cache and never stops early, the named form touches one; the admin handler purges on every request that carries a key; the package-level purge hands (cache name, key) unchanged to the one default registry; each back end deletes the record its Get and Set address; a purge writes no entry state and takes no entry lock, so it can neither block on nor strand an in-flight fetch; an entry enters a shard's LRU only from the function that has just constructed it, so a purged entry is never put back by its fetcher; the badger back end's writes and deletes are committed before success is reported. Each back end's Delete addresses the record by the whole key in the form its Set used, and the redis client is not told to serve reads from replicas (a purged record cannot be read back from a lagging copy). The history clause about a purge racing a fetch that later re-persists is not decided.",
 		nil, func(c *Ctx) {
 			withAnchors(c, func(a *serverAnchors) {
 				rulePurge(c, a.cacheA)
@@ -239,10 +242,12 @@ func init() {
 				ruleForwarders(c, "cache")
 				ruleShardFunction(c)
 				ruleEntryWriters(c, a.cacheA)
+				ruleRedisReadsMaster(c)
+				ruleStoreKeys(c)
 			})
 		})
 	register("C05",
-		"Decides label/bytes agreement and provenance on every path: each encoding label handed to a client is paired with the stored variant of that coding, the raw body, or a transcode of the raw body; the raw body is RawBody, else gunzip(GzipBody), else brotli-decode(BrBody); upstream bodies are filed under exactly the variant their encoding names and every other documented encoding is decoded by its own codec; Fill writes label, body, status and header of one negotiation and, after merging the stored header, sets nothing but Content-Encoding; the stored header is a deep copy minus only the fields pike recomputes; pre-compression drops the raw body only when both variants exist; the lz4 destination covers the format's maximum expansion; the five content-coding constants carry the documented wire names; the upstream transport and the client-facing server set no header-size cap or read/write deadline that would replace the upstream's answer; the cache key keeps the request method, so a body-less answer to HEAD is never what a GET is served. Byte-identity of codec round trips is not decidable statically.",
+		"Decides label/bytes agreement and provenance on every path: each encoding label handed to a client is paired with the stored variant of that coding, the raw body, or a transcode of the raw body; the raw body is RawBody, else gunzip(GzipBody), else brotli-decode(BrBody); upstream bodies are filed under exactly the variant their encoding names and every other documented encoding is decoded by its own codec; Fill writes label, body, status and header of one negotiation and, after merging the stored header, sets nothing but Content-Encoding; the stored header is a deep copy minus only the fields pike recomputes; pre-compression drops the raw body only when both variants exist; the lz4 destination covers the format's maximum expansion; the five content-coding constants carry the documented wire names; the upstream transport and the client-facing server set no header-size cap or read/write deadline that would replace the upstream's answer; the cache key keeps the request method, so a body-less answer to HEAD is never what a GET is served. After the upstream has answered, the proxy handler returns no error of its own before the response is built. Byte-identity of codec round trips is not decidable statically.",
 		nil, func(c *Ctx) {
 			withAnchors(c, func(a *serverAnchors) {
 				ruleDecisionTable(c)
@@ -267,7 +272,7 @@ func init() {
 			})
 		})
 	register("C13",
-		"Decides the negotiation logic completely: the function from (accept-br, accept-gzip, has-br, has-gzip, should-compress) to (label, body provenance) is extracted from the code's paths and compared with the documented decision list on all 32 cells, with determinism; should-compress is false iff all variants are <= the minimum length and otherwise the content-type filter (default when unset) decides; cacheable responses are compressed once with the best-compression profile before publication and nowhere else; each response carries the server's compress settings, and a live update computes those settings from the option exactly as the constructor does (a removed filter falls back to the default); no library middleware that rewrites responses is installed in the proxying chain; the filter is compiled with the parser its validator uses and per server (nothing carried over from the previous server's conversion). The built-in default filter is a plain list of words matched anywhere in the content type (no assertion, repetition or class) and covers the documented words. Substring matching of Accept-Encoding tokens and q-values are outside the statement.",
+		"Decides the negotiation logic completely: the function from (accept-br, accept-gzip, has-br, has-gzip, should-compress) to (label, body provenance) is extracted from the code's paths and compared with the documented decision list on all 32 cells, with determinism; should-compress is false iff all variants are <= the minimum length and otherwise the content-type filter (default when unset) decides; cacheable responses are compressed once with the best-compression profile before publication and nowhere else; each response carries the server's compress settings, and a live update computes those settings from the option exactly as the constructor does (a removed filter falls back to the default); no library middleware that rewrites responses is installed in the proxying chain; the filter is compiled with the parser its validator uses and per server (nothing carried over from the previous server's conversion). The built-in default filter is a plain list of words matched anywhere in the content type (no assertion, repetition or class) and covers the documented words. Pre-compression gives up only after it has asked for the raw body, which is recovered from a stored variant, so a response that arrived compressed still gets its other variant when stored. Substring matching of Accept-Encoding tokens and q-values are outside the statement.",
 		nil, func(c *Ctx) {
 			withAnchors(c, func(a *serverAnchors) {
 				ruleDecisionTable(c)
@@ -286,10 +291,11 @@ func init() {
 				ruleConverterPerItem(c)
 				ruleCtorUpdateAgree(c)
 				ruleDefaultFilter(c)
+				ruleCompressFromAnyVariant(c)
 			})
 		})
 	register("C12",
-		"Decides stream finalisation order (the compressing writer is closed on every successful path and the buffer is not read before that), level clamping for every int (the value reaching gzip.NewWriterLevel is in [-2,9], brotli's in [0,11]), propagation of every codec library error, the lz4 destination bound (a short-buffer failure is final only at 255 x input) that the lz4 retry loop has a feasible exit while the short-buffer error persists (no hang on malformed blocks), the decoder dispatch, that pike's own decoder code has no Must* call, explicit panic, allocation sized by an unchecked number taken from the stream or index that is not provably inside the data, that the five decoders are reached under the documented wire names, and that the zstd decoder is built without options that reject valid frames or whose value is taken from the machine (GOMAXPROCS, environment), that encoders write into an empty buffer, and that the stream decoders share no mutable package-level state. On every successful path a stream encoder hands its writer the input parameter itself, exactly once (no pieces cut by computed offsets). That the codec libraries are exact inverses for every byte string and themselves never panic on malformed input is behaviour of third-party code: not applicable to static analysis.",
+		"Decides stream finalisation order (the compressing writer is closed on every successful path and the buffer is not read before that), level clamping for every int (the value reaching gzip.NewWriterLevel is in [-2,9], brotli's in [0,11]), propagation of every codec library error, the lz4 destination bound (a short-buffer failure is final only at 255 x input) that the lz4 retry loop has a feasible exit while the short-buffer error persists (no hang on malformed blocks), the decoder dispatch, that pike's own decoder code has no Must* call, explicit panic, allocation sized by an unchecked number taken from the stream or index that is not provably inside the data, that the five decoders are reached under the documented wire names, and that the zstd decoder is built without options that reject valid frames or whose value is taken from the machine (GOMAXPROCS, environment), that encoders write into an empty buffer, and that the stream decoders share no mutable package-level state. On every successful path a stream encoder hands its writer the input parameter itself, exactly once (no pieces cut by computed offsets). No codec library call is handed the same buffer as source and destination. That the codec libraries are exact inverses for every byte string and themselves never panic on malformed input is behaviour of third-party code: not applicable to static analysis.",
 		nil, func(c *Ctx) {
 			ruleEncoders(c)
 			ruleLevelApplied(c)
@@ -307,9 +313,10 @@ func init() {
 			ruleResultBeforeError(c, map[string]bool{"compress": true})
 			ruleDecodersNoPanic(c, map[string]bool{"compress": true})
 			ruleDecoderBounds(c, map[string]bool{"compress": true})
+			ruleCodecNoAlias(c)
 		})
 	register("C09",
-		"Decides writer/reader layout agreement for both record types (element kinds, widths, order and the field each element belongs to, every variable-length element preceded by its own length), that every read is bounded (fixed-width reads fail on short input, variable reads are checked against 0 and the remaining length), that no allocation in a decoder is sized by record data and no decoder calls a panicking-by-contract function (Must*) on record data, that every index and fixed-width byte-order read in a decoder is inside the data by the comparisons made before it, that the loader accepts every record the completions write (adoption depends only on status, expiry and, for a hit, the presence of a response, not on its content; markers with and without a response are taken), that a record cut anywhere fails to decode (the tail is a checked read), that encoded records are freshly allocated, that integer writers and readers agree on width and byte order, that the persisted status numbers are the ones records on disk carry, that String() of a decoded status cannot index outside its table, that a record saved without a content-type filter is restored without one, and that decoding keeps no package-level state (the same record always decodes the same way). What the writer marshals is the entry's field as it stands, and the reader puts no constant of its own into a decoded field. Exact value round-trip of contents (e.g. JSON re-encoding of non-UTF-8 header values) is value semantics of libraries and not decided.",
+		"Decides writer/reader layout agreement for both record types (element kinds, widths, order and the field each element belongs to, every variable-length element preceded by its own length), that every read is bounded (fixed-width reads fail on short input, variable reads are checked against 0 and the remaining length), that no allocation in a decoder is sized by record data and no decoder calls a panicking-by-contract function (Must*) on record data, that every index and fixed-width byte-order read in a decoder is inside the data by the comparisons made before it, that the loader accepts every record the completions write (adoption depends only on status, expiry and, for a hit, the presence of a response, not on its content; markers with and without a response are taken), that a record cut anywhere fails to decode (the tail is a checked read), that encoded records are freshly allocated, that integer writers and readers agree on width and byte order, that the persisted status numbers are the ones records on disk carry, that String() of a decoded status cannot index outside its table, that a record saved without a content-type filter is restored without one, and that decoding keeps no package-level state (the same record always decodes the same way). What the writer marshals is the entry's field as it stands, and the reader puts no constant of its own into a decoded field. Every successful writer path emits, and every successful reader path consumes, the same sequence of elements (no element is conditional on one side only). Exact value round-trip of contents (e.g. JSON re-encoding of non-UTF-8 header values) is value semantics of libraries and not decided.",
 		nil, func(c *Ctx) {
 			ruleLayout(c)
 			ruleFilterRoundTrip(c)
@@ -344,10 +351,10 @@ func init() {
 			})
 		})
 	register("C15",
-		"Decides which request state the proxy middleware changes before the upstream call and that each change is undone on every exit after it: on a cold (fetching) request If-None-Match, If-Modified-Since, Range and If-Range are removed or known absent at the upstream call, on every other request they are untouched; every header the middleware removed or overrode (incl. Accept-Encoding) is set back to the value read before; the upstream's Accept-Encoding override is exactly the configured value and is applied whenever one is configured (also when the client sent no Accept-Encoding); the location's configured request headers and query parameters are added next to the client's own (never set over, assigned or deleted, and added whatever the client or upstream already sent; the query is written back on every path and built on the client's own); every wildcard of a rewrite rule becomes a capture group that also matches an empty remainder and each rule is matched against what the previous rules produced; configured header and query values are used as written (only a leading '$' means an environment lookup); the location's response headers are added to the upstream's header before the response (and its header clone) is built; a lifetime is recorded only for fetchers; the original next handler is restored and run once. The configured query and header collections are never read through a first-value accessor, so every configured value of a repeated key is added. What the upstream receives byte for byte is not decided.",
+		"Decides which request state the proxy middleware changes before the upstream call and that each change is undone on every exit after it: on a cold (fetching) request If-None-Match, If-Modified-Since, Range and If-Range are removed or known absent at the upstream call, on every other request they are untouched; every header the middleware removed or overrode (incl. Accept-Encoding) is set back to the value read before; the upstream's Accept-Encoding override is exactly the configured value and is applied whenever one is configured (also when the client sent no Accept-Encoding); the location's configured request headers and query parameters are added next to the client's own (never set over, assigned or deleted, and added whatever the client or upstream already sent; the query is written back on every path and built on the client's own); every wildcard of a rewrite rule becomes a capture group that also matches an empty remainder and each rule is matched against what the previous rules produced; configured header and query values are used as written (only a leading '$' means an environment lookup); the location's response headers are added to the upstream's header before the response (and its header clone) is built; a lifetime is recorded only for fetchers; the original next handler is restored and run once. The configured query and header collections are never read through a first-value accessor, so every configured value of a repeated key is added. What the rewriter writes back into the path is the rules' result (or the path as it came), with nothing applied on top. What the upstream receives byte for byte is not decided.",
 		nil, func(c *Ctx) {
 			withAnchors(c, func(a *serverAnchors) {
-				ruleProxyMiddleware(c, a, set("withheld-on-fetch", "restore", "accept-encoding-override", "location-edits-order", "lifetime-plumbing", "next-restored", "response-built", "forward-once", "upstream-error-propagates"))
+				ruleProxyMiddleware(c, a, set("withheld-on-fetch", "restore", "accept-encoding-override", "location-edits-order", "lifetime-plumbing", "lifetime-recorded", "next-restored", "response-built", "forward-once", "upstream-error-propagates"))
 				ruleCacheMiddleware(c, a, set("completion-only-by-fetcher", "store-gate"))
 				ruleRequestWrites(c)
 				ruleProxyHandlerDirect(c)
@@ -366,7 +373,7 @@ func init() {
 			})
 		})
 	register("C16",
-		"Decides that the two ways a configuration reaches a running object agree: NewServer and Update compute the same value from the option for every field both assign (only the documented restart-only fields are construction-only); main.update applies every section of the configuration just read, each referenced section before the ones that name it, and then starts the servers; every registry's reset removes names that disappeared (or replaces the collection wholesale) on every path, an empty configuration included, and the shared delete helper visits every key; surviving caches are kept; persistent stores are closed only by package store (they are registry singletons that are never re-opened); every configured upstream and compress profile is replaced by one freshly built from the new options; only instances no longer in service are destroyed; removed servers are closed; the proxy resolves the server's locations, and the cache middleware the server's cache, per request (nothing captured when the handler was built); a server is marked as listening only after net.Listen succeeded, so a failed start is retried by the next update; starting the server list visits and starts every registered server; closing a listening server clears that flag, stops the handler that actually serves (GracefulClose, or shutting down the http.Server it runs in) and closes the listener; the package-level entry points main.update calls hand the configuration, converted by the package's converter, to the one default registry. The file watcher recognises a write by masking the event's bit set, calls back on every write event and leaves its loop only when the watcher is closed. Whether a registry entry is removed on an update is decided by its name alone (an entry still configured is updated in place, never rebuilt); a submitted configuration is decoded into an empty value, so what is saved depends on the submission and not on what was stored before. Differential behaviour of two live processes and in-flight requests during the swap are not decided.",
+		"Decides that the two ways a configuration reaches a running object agree: NewServer and Update compute the same value from the option for every field both assign (only the documented restart-only fields are construction-only); main.update applies every section of the configuration just read, each referenced section before the ones that name it, and then starts the servers; every registry's reset removes names that disappeared (or replaces the collection wholesale) on every path, an empty configuration included, and the shared delete helper visits every key; surviving caches are kept; persistent stores are closed only by package store (they are registry singletons that are never re-opened); every configured upstream and compress profile is replaced by one freshly built from the new options; only instances no longer in service are destroyed; removed servers are closed; the proxy resolves the server's locations, and the cache middleware the server's cache, per request (nothing captured when the handler was built); a server is marked as listening only after net.Listen succeeded, so a failed start is retried by the next update; starting the server list visits and starts every registered server; closing a listening server clears that flag, stops the handler that actually serves (GracefulClose, or shutting down the http.Server it runs in) and closes the listener; the package-level entry points main.update calls hand the configuration, converted by the package's converter, to the one default registry. The file watcher recognises a write by masking the event's bit set, calls back on every write event and leaves its loop only when the watcher is closed. Whether a registry entry is removed on an update is decided by its name alone (an entry still configured is updated in place, never rebuilt); a submitted configuration is decoded into an empty value, so what is saved depends on the submission and not on what was stored before. config.Watch passes every change event on to the caller's callback (no filter of its own); no registry reset edits the option list it is walking. Differential behaviour of two live processes and in-flight requests during the swap are not decided.",
 		nil, func(c *Ctx) {
 			ruleCtorUpdateAgree(c)
 			ruleConverters(c)
@@ -393,9 +400,11 @@ func init() {
 			ruleServersStartAll(c)
 			ruleForwarders(c, "cache", "location", "server", "compress")
 			ruleSaveDecodesFresh(c)
+			ruleWatchForwardsCallback(c)
+			ruleResetInputReadOnly(c)
 		})
 	register("C19",
-		"Decides pike's wiring of the health-checked pool (the pool itself lives in the dependency github.com/vicanso/upstream): servers marked backup are registered as backups and only those, each with its own address; policy and ping path reach the pool exactly as configured (the converter copies them unedited); a health check runs before a pool is published and periodically after; a reload never stops the health check of an instance that stays in service; pike never writes into or appends onto the server list the pool hands out; the upstream transport uses no environment proxy; a wrapper around the reverse proxy always calls it; the proxy target is only what the pool's Next() returned (no fixed target is configured, and the picker asks the pool for nothing else, so no request runs or waits for a health check) and 'no healthy server' is a 5xx error. The fault-sequence quantifier (up/down timing, recovery, even distribution) is run-time behaviour of the dependency and the network: not applicable.",
+		"Decides pike's wiring of the health-checked pool (the pool itself lives in the dependency github.com/vicanso/upstream): servers marked backup are registered as backups and only those, each with its own address; policy and ping path reach the pool exactly as configured (the converter copies them unedited); a health check runs before a pool is published and periodically after; a reload never stops the health check of an instance that stays in service; pike never writes into or appends onto the server list the pool hands out; the upstream transport uses no environment proxy; a wrapper around the reverse proxy always calls it; the proxy target is only what the pool's Next() returned (no fixed target is configured, and the picker asks the pool for nothing else, so no request runs or waits for a health check) and 'no healthy server' is a 5xx error. The upstream transport's dialer carries only relative limits (no absolute deadline fixed when the upstream is built), so a server that recovers can be connected to again. The fault-sequence quantifier (up/down timing, recovery, even distribution) is run-time behaviour of the dependency and the network: not applicable.",
 		[]string{"github.com/vicanso/upstream: Next() returns only servers whose last health check passed, backups only when no primary is healthy"}, func(c *Ctx) {
 			withAnchors(c, func(a *serverAnchors) {
 				ruleUpstreamCtor(c)
@@ -412,11 +421,12 @@ func init() {
 				ruleDestroyOnlyStops(c)
 				ruleTargetPicker(c)
 				ruleUpstreamSwap(c)
+				ruleDialerNoAbsoluteDeadline(c)
 				ruleProxyMiddleware(c, a, set("proxy-resolution", "forward-once"))
 			})
 		})
 	register("C17",
-		"Decides that Validate runs field validation first and checks each of the four reference relations on exactly the (referrer field, referenced name) pair, per referrer, returning its error; that a reference whose run-time lookup can come back nil (the server's cache, the location's upstream) cannot be left empty in an accepted configuration; that the run-time lookups go to the same default registries the reload fills and are made per request with the server's current settings; that each configuration back end reads, writes and watches one and the same location, writes the bytes it is given, and that Read decodes the bytes it read into the configuration it returns; that Write stores the YAML of the configuration only after Validate returned nil, unedited in between, and never reports success without writing; that no configuration field is lost or merged by the YAML/JSON field table, the YAML key of every field is its documented (JSON) key and the shipped pike.yml uses known keys only; that the admin handlers write configuration entries back only as copies of the entries they annotate; that a path accepted by the path validator starts with '/'; that lists of validated structs are validated element-wise (dive) and Validate never reports success from inside one of its loops; that no back-end method rewrites the configured location before using it; that every validate tag is registered and every place that leniently parses a configuration field uses the parser its validator uses (including a value the upstream library parses on pike's behalf). In tags and aliases no bound or custom rule is one side of an \"or\" (the bound would not be enforced); a validator runs no second parser its consumers do not run. Quoting behaviour of the YAML library is not decided.",
+		"Decides that Validate runs field validation first and checks each of the four reference relations on exactly the (referrer field, referenced name) pair, per referrer, returning its error; that a reference whose run-time lookup can come back nil (the server's cache, the location's upstream) cannot be left empty in an accepted configuration; that the run-time lookups go to the same default registries the reload fills and are made per request with the server's current settings; that each configuration back end reads, writes and watches one and the same location, writes the bytes it is given, and that Read decodes the bytes it read into the configuration it returns; that Write stores the YAML of the configuration only after Validate returned nil, unedited in between, and never reports success without writing; that no configuration field is lost or merged by the YAML/JSON field table, the YAML key of every field is its documented (JSON) key and the shipped pike.yml uses known keys only; that the admin handlers write configuration entries back only as copies of the entries they annotate; that a path accepted by the path validator starts with '/'; that lists of validated structs are validated element-wise (dive) and Validate never reports success from inside one of its loops; that no back-end method rewrites the configured location before using it; that every validate tag is registered and every place that leniently parses a configuration field uses the parser its validator uses (including a value the upstream library parses on pike's behalf). In tags and aliases no bound or custom rule is one side of an \"or\" (the bound would not be enforced); a validator runs no second parser its consumers do not run. Nothing is decoded over the configuration between its validation and the write; applying a configuration publishes one location for each it was given. Quoting behaviour of the YAML library is not decided.",
 		nil, func(c *Ctx) {
 			ruleValidateRefs(c)
 			ruleRequiredRefs(c)
@@ -438,9 +448,10 @@ func init() {
 			ruleKeepCache(c)
 			ruleStoreOpenNonFatal(c)
 			ruleBoundsConjunctive(c)
+			ruleSetPublishesAll(c)
 		})
 	register("C20",
-		"Decides lock discipline for all shared mutable state reachable from main (request, purge, admin and reload paths): every access to a guarded field (entry state, shard LRU, server settings, location list) holds the owner's lock in a sufficient mode, locally or through every caller; every lock is released on every return and only by a function that holds it; the lock-order graph is acyclic; fields read without a lock are written only while their object is private to its constructor; a published response is never written; memory from a sync.Pool never escapes into keys, bodies or records; error values (which reach requests through shared package-level sentinels) are written only by the function that built them; no value holding a lock is copied; slices owned by the upstream pool are never written; configuration reloads are invoked synchronously from the single watcher goroutine; the entry lookup is made under the write lock and a woken waiter re-reads under the lock; a registry lookup that can return nil is tested before use; a reload publishes referenced sections before the sections that name them. Each nilable field that closing a server dereferences is guarded by a field set only together with it (a server whose listen failed can be closed). Race-detector stress and 'the process does not crash' over schedules are not applicable to static analysis.",
+		"Decides lock discipline for all shared mutable state reachable from main (request, purge, admin and reload paths): every access to a guarded field (entry state, shard LRU, server settings, location list) holds the owner's lock in a sufficient mode, locally or through every caller; every lock is released on every return and only by a function that holds it; the lock-order graph is acyclic; fields read without a lock are written only while their object is private to its constructor; a published response is never written; memory from a sync.Pool never escapes into keys, bodies or records; error values (which reach requests through shared package-level sentinels) are written only by the function that built them; no value holding a lock is copied; slices owned by the upstream pool are never written; configuration reloads are invoked synchronously from the single watcher goroutine; the entry lookup is made under the write lock and a woken waiter re-reads under the lock; a registry lookup that can return nil is tested before use; a reload publishes referenced sections before the sections that name them. Each nilable field that closing a server dereferences is guarded by a field set only together with it (a server whose listen failed can be closed). A response object is never overwritten as a whole once built (readers that were handed it keep a consistent generation). Race-detector stress and 'the process does not crash' over schedules are not applicable to static analysis.",
 		nil, func(c *Ctx) {
 			withAnchors(c, func(a *serverAnchors) {
 				ruleLockset(c)
@@ -468,6 +479,7 @@ func init() {
 				rulePrecompress(c, a)
 				ruleEntryWriters(c, a.cacheA)
 				ruleCloseListenerGuard(c)
+				ruleResponseNeverOverwritten(c)
 			})
 		})
 }
